@@ -38,19 +38,27 @@ def _run_task(self, callback, *args, **kwargs):
     """runs the callee entirely inside the scope of this process: while it executes the stack is old ++ [self] (so
     Process.current() is self); afterwards -- also when it raises -- the previous stack is back; the list object that was
     current before (possibly the shared default) is never mutated"""
-    requires(wf_stack() and is_heap_obj(callback) and not is_function(callback))
+    requires(wf_stack() and is_heap_obj(callback))
     s0 = stack()
     l0 = attr(PROCESS_STACK, '_value')
     modifies(user_effects, attr(PROCESS_STACK, '_value'))
     ev = calls()[len(calls()) - 1]
     ensures('one_call', len(calls()) == old(len(calls())) + 1)
+    ensures('returned_means_no_failure', attr(ev, 'raised') is None)
+    ensures('calls_the_callback', wraps(ev.fn, callback) and seq(ev.args) == seq(args))
+    ensures('hands_back_its_result', ret is (attr(ev, 'awaited') if attr(ev, 'was_awaited') else attr(ev, 'result')))
     ensures('scope_during_call', seq(attr(ev, 'snapshot')) == s0 + [self])
     ensures('previous_list_untouched_during_call', seq(attr(ev, 'snapshot2')) == s0)
     ensures('scope_restored', stack() == s0 and wf_stack())
     ensures('previous_list_untouched', list_unchanged(l0))
     raises(BaseException, stack() == s0 and wf_stack() and list_unchanged(l0)
            and (len(calls()) == old(len(calls())) or (seq(attr(calls()[len(calls()) - 1], 'snapshot')) == s0 + [self]
-                                                      and seq(attr(calls()[len(calls()) - 1], 'snapshot2')) == s0)))
+                                                      and seq(attr(calls()[len(calls()) - 1], 'snapshot2')) == s0
+                                                      and len(calls()) == old(len(calls())) + 1
+                                                      and wraps(calls()[len(calls()) - 1].fn, callback)
+                                                      # what the callee raised is what comes out (None: the await was aborted)
+                                                      and (attr(calls()[len(calls()) - 1], 'raised') is None
+                                                           or attr(calls()[len(calls()) - 1], 'raised') is exc))))
     replay('scope_during_call', 'process_scope')
     replay('previous_list_untouched_during_call', 'process_scope')
     replay('scope_restored', 'process_scope')
